@@ -202,9 +202,53 @@ Proof.
     rewrite ?H1, ?H2, ?H3; reflexivity.
 Qed.
 
-(* ---- register ---- *)
 
 Notation NN := (@None _).
+
+(* key dispatch of the step functions, proved once on an abstract state *)
+Lemma rstep_access : forall dfa v s, m_register_step dfa ("access", v) s = (a <-- m_access v ;; ROk (upd_register s NN (Some a) NN NN NN NN NN NN NN NN NN)).
+Proof. intros. unfold m_register_step. keys. reflexivity. Qed.
+Lemma rstep_byte_order : forall dfa v s, m_register_step dfa ("byte_order", v) s = (b <-- m_byte_order v ;; ROk (upd_register s NN NN (Some (Some b)) NN NN NN NN NN NN NN NN)).
+Proof. intros. unfold m_register_step. keys. reflexivity. Qed.
+Lemma rstep_bit_order : forall dfa v s, m_register_step dfa ("bit_order", v) s = (b <-- m_bit_order v ;; ROk (upd_register s NN NN NN (Some b) NN NN NN NN NN NN NN)).
+Proof. intros. unfold m_register_step. keys. reflexivity. Qed.
+Lemma rstep_address : forall dfa v s, m_register_step dfa ("address", v) s = (z <-- as_int v ;; ROk (upd_register s NN NN NN NN NN NN (Some z) NN NN NN NN)).
+Proof. intros. unfold m_register_step. keys. reflexivity. Qed.
+Lemma rstep_size_bits : forall dfa v s, m_register_step dfa ("size_bits", v) s = (z <-- as_u32 v ;; ROk (upd_register s NN NN NN NN NN NN NN (Some z) NN NN NN)).
+Proof. intros. unfold m_register_step. keys. reflexivity. Qed.
+Lemma rstep_reset_value : forall dfa v s, m_register_step dfa ("reset_value", v) s = (x <-- m_reset v ;; ROk (upd_register s NN NN NN NN NN NN NN NN (Some (Some x)) NN NN)).
+Proof. intros. unfold m_register_step. keys. reflexivity. Qed.
+Lemma rstep_repeat : forall dfa v s, m_register_step dfa ("repeat", v) s = (x <-- m_repeat v ;; ROk (upd_register s NN NN NN NN NN NN NN NN NN (Some (Some x)) NN)).
+Proof. intros. unfold m_register_step. keys. reflexivity. Qed.
+Lemma rstep_allow_bit_overlap : forall dfa v s, m_register_step dfa ("allow_bit_overlap", v) s = (b <-- as_bool v ;; ROk (upd_register s NN NN NN NN (Some b) NN NN NN NN NN NN)).
+Proof. intros. unfold m_register_step. keys. reflexivity. Qed.
+Lemma rstep_allow_address_overlap : forall dfa v s, m_register_step dfa ("allow_address_overlap", v) s = (b <-- as_bool v ;; ROk (upd_register s NN NN NN NN NN (Some b) NN NN NN NN NN)).
+Proof. intros. unfold m_register_step. keys. reflexivity. Qed.
+Lemma rstep_fields : forall dfa v s, m_register_step dfa ("fields", v) s = (fs <-- m_fields dfa v ;; ROk (upd_register s NN NN NN NN NN NN NN NN NN NN (Some fs))).
+Proof. intros. unfold m_register_step. keys. reflexivity. Qed.
+Lemma cstep_byte_order : forall dfa v s, m_command_step dfa ("byte_order", v) s = (b <-- m_byte_order v ;; ROk (upd_command s NN (Some (Some b)) NN NN NN NN NN NN NN NN NN)).
+Proof. intros. unfold m_command_step. keys. reflexivity. Qed.
+Lemma cstep_bit_order : forall dfa v s, m_command_step dfa ("bit_order", v) s = (b <-- m_bit_order v ;; ROk (upd_command s NN NN (Some b) NN NN NN NN NN NN NN NN)).
+Proof. intros. unfold m_command_step. keys. reflexivity. Qed.
+Lemma cstep_address : forall dfa v s, m_command_step dfa ("address", v) s = (z <-- as_int v ;; ROk (upd_command s NN NN NN NN NN (Some z) NN NN NN NN NN)).
+Proof. intros. unfold m_command_step. keys. reflexivity. Qed.
+Lemma cstep_size_bits_in : forall dfa v s, m_command_step dfa ("size_bits_in", v) s = (z <-- as_u32 v ;; ROk (upd_command s NN NN NN NN NN NN (Some z) NN NN NN NN)).
+Proof. intros. unfold m_command_step. keys. reflexivity. Qed.
+Lemma cstep_size_bits_out : forall dfa v s, m_command_step dfa ("size_bits_out", v) s = (z <-- as_u32 v ;; ROk (upd_command s NN NN NN NN NN NN NN (Some z) NN NN NN)).
+Proof. intros. unfold m_command_step. keys. reflexivity. Qed.
+Lemma cstep_repeat : forall dfa v s, m_command_step dfa ("repeat", v) s = (x <-- m_repeat v ;; ROk (upd_command s NN NN NN NN NN NN NN NN (Some (Some x)) NN NN)).
+Proof. intros. unfold m_command_step. keys. reflexivity. Qed.
+Lemma cstep_allow_bit_overlap : forall dfa v s, m_command_step dfa ("allow_bit_overlap", v) s = (b <-- as_bool v ;; ROk (upd_command s NN NN NN (Some b) NN NN NN NN NN NN NN)).
+Proof. intros. unfold m_command_step. keys. reflexivity. Qed.
+Lemma cstep_allow_address_overlap : forall dfa v s, m_command_step dfa ("allow_address_overlap", v) s = (b <-- as_bool v ;; ROk (upd_command s NN NN NN NN (Some b) NN NN NN NN NN NN)).
+Proof. intros. unfold m_command_step. keys. reflexivity. Qed.
+Lemma cstep_fields_in : forall dfa v s, m_command_step dfa ("fields_in", v) s = (fs <-- m_fields dfa v ;; ROk (upd_command s NN NN NN NN NN NN NN NN NN (Some fs) NN)).
+Proof. intros. unfold m_command_step. keys. reflexivity. Qed.
+Lemma cstep_fields_out : forall dfa v s, m_command_step dfa ("fields_out", v) s = (fs <-- m_fields dfa v ;; ROk (upd_command s NN NN NN NN NN NN NN NN NN NN (Some fs))).
+Proof. intros. unfold m_command_step. keys. reflexivity. Qed.
+
+(* ---- register ---- *)
+
 
 Lemma foldM_head : forall {S} (step : string * mvalue -> S -> result S) ty h (upd : option string -> S -> S) b,
   (forall v s, step ("type", v) s = ROk s) ->
@@ -252,46 +296,46 @@ Proof.
   flat_r. unfold register_keys. rewrite Ea, Es.
   rewrite foldM_app, (seg_m (m_register_step dfa) "access" m_of_access
                          (fun x s => upd_register s NN x NN NN NN NN NN NN NN NN NN) always);
-    [|intros a0 _; unfold m_register_step; keys; rewrite m_access_ok; reflexivity
+    [|intros a0 _; rewrite ?rstep_access, ?rstep_byte_order, ?rstep_bit_order, m_access_ok; reflexivity
      |reflexivity|apply opt_ok_always].
   flat_r.
   rewrite foldM_app, (seg_m (m_register_step dfa) "byte_order" m_of_byte_order
                          (fun x s => upd_register s NN NN (option_map Some x) NN NN NN NN NN NN NN NN) always);
-    [|intros a0 _; unfold m_register_step; keys; rewrite m_byte_order_ok; reflexivity
+    [|intros a0 _; rewrite ?rstep_access, ?rstep_byte_order, ?rstep_bit_order, m_byte_order_ok; reflexivity
      |reflexivity|apply opt_ok_always].
   flat_r.
   rewrite foldM_app, (seg_m (m_register_step dfa) "bit_order" m_of_bit_order
                          (fun x s => upd_register s NN NN NN x NN NN NN NN NN NN NN) always);
-    [|intros a0 _; unfold m_register_step; keys; rewrite m_bit_order_ok; reflexivity
+    [|intros a0 _; rewrite ?rstep_access, ?rstep_byte_order, ?rstep_bit_order, m_bit_order_ok; reflexivity
      |reflexivity|apply opt_ok_always].
   flat_r.
-  rewrite foldM_app. cbn [opt_key foldM]. unfold m_register_step at 1. keys. cbn in Hok. rewrite (as_int_ok _ Hok).
+  rewrite foldM_app. cbn [opt_key foldM]. rewrite rstep_address. cbn in Hok. rewrite (as_int_ok _ Hok).
   flat_r.
-  rewrite foldM_app. cbn [opt_key foldM]. unfold m_register_step at 1. keys.
+  rewrite foldM_app. cbn [opt_key foldM]. rewrite rstep_size_bits.
   match goal with H : opt_ok in_u32 (Some s) = true |- _ => cbn in H; rewrite (as_u32_ok _ H) end.
   flat_r.
   rewrite foldM_app, (seg_m (m_register_step dfa) "reset_value" m_of_reset
                          (fun x s => upd_register s NN NN NN NN NN NN NN NN (option_map Some x) NN NN) reset_ok);
-    [|intros a0 Ha0; unfold m_register_step; keys; rewrite (m_reset_ok _ Ha0); reflexivity
+    [|intros a0 Ha0; rewrite rstep_reset_value, (m_reset_ok _ Ha0); reflexivity
      |reflexivity|assumption].
   flat_r.
   rewrite foldM_app, (seg_m (m_register_step dfa) "repeat" m_of_repeat
                          (fun x s => upd_register s NN NN NN NN NN NN NN NN NN (option_map Some x) NN) repeat_ok);
-    [|intros a0 Ha0; unfold m_register_step; keys; rewrite (m_repeat_ok _ Ha0); reflexivity
+    [|intros a0 Ha0; rewrite rstep_repeat, (m_repeat_ok _ Ha0); reflexivity
      |reflexivity|assumption].
   flat_r.
   rewrite foldM_app, (seg_m (m_register_step dfa) "allow_bit_overlap" MBool
                          (fun x s => upd_register s NN NN NN NN x NN NN NN NN NN NN) always);
-    [|intros a0 _; reflexivity|reflexivity|apply opt_ok_always].
+    [|intros a0 _; rewrite rstep_allow_bit_overlap; reflexivity|reflexivity|apply opt_ok_always].
   flat_r.
   rewrite foldM_app, (seg_m (m_register_step dfa) "allow_address_overlap" MBool
                          (fun x s => upd_register s NN NN NN NN NN x NN NN NN NN NN) always);
-    [|intros a0 _; reflexivity|reflexivity|apply opt_ok_always].
+    [|intros a0 _; rewrite rstep_allow_address_overlap; reflexivity|reflexivity|apply opt_ok_always].
   flat_r.
   destruct (ar_fields r) as [|f0 ft] eqn:Ef.
   - cbn [foldM]. unfold class_of. f_equal.
     destruct (h_cfg h), (ar_byte_order r), (ar_reset r), (ar_repeat r); reflexivity.
-  - cbn [foldM]. unfold m_register_step at 1. keys.
+  - cbn [foldM]. rewrite rstep_fields.
     rewrite (m_fields_ok toml dfa (f0 :: ft)) by (apply fields_ok_field_ok; assumption).
     cbn [rbind]. unfold class_of. f_equal.
     destruct (h_cfg h), (ar_byte_order r), (ar_reset r), (ar_repeat r); reflexivity.
@@ -321,51 +365,51 @@ Proof.
   flat_c. unfold command_keys. rewrite Ea.
   rewrite foldM_app, (seg_m (m_command_step dfa) "byte_order" m_of_byte_order
                          (fun x s => upd_command s NN (option_map Some x) NN NN NN NN NN NN NN NN NN) always);
-    [|intros a0 _; unfold m_command_step; keys; rewrite m_byte_order_ok; reflexivity
+    [|intros a0 _; rewrite ?cstep_byte_order, ?cstep_bit_order, m_byte_order_ok; reflexivity
      |reflexivity|apply opt_ok_always].
   flat_c.
   rewrite foldM_app, (seg_m (m_command_step dfa) "bit_order" m_of_bit_order
                          (fun x s => upd_command s NN NN x NN NN NN NN NN NN NN NN) always);
-    [|intros a0 _; unfold m_command_step; keys; rewrite m_bit_order_ok; reflexivity
+    [|intros a0 _; rewrite ?cstep_byte_order, ?cstep_bit_order, m_bit_order_ok; reflexivity
      |reflexivity|apply opt_ok_always].
   flat_c.
-  rewrite foldM_app. cbn [opt_key foldM]. unfold m_command_step at 1. keys. cbn in Hok. rewrite (as_int_ok _ Hok).
+  rewrite foldM_app. cbn [opt_key foldM]. rewrite cstep_address. cbn in Hok. rewrite (as_int_ok _ Hok).
   flat_c.
   rewrite foldM_app, (seg_m (m_command_step dfa) "repeat" m_of_repeat
                          (fun x s => upd_command s NN NN NN NN NN NN NN NN (option_map Some x) NN NN) repeat_ok);
-    [|intros a0 Ha0; unfold m_command_step; keys; rewrite (m_repeat_ok _ Ha0); reflexivity
+    [|intros a0 Ha0; rewrite cstep_repeat, (m_repeat_ok _ Ha0); reflexivity
      |reflexivity|assumption].
   flat_c.
   rewrite foldM_app, (seg_m (m_command_step dfa) "allow_bit_overlap" MBool
                          (fun x s => upd_command s NN NN NN x NN NN NN NN NN NN NN) always);
-    [|intros a0 _; reflexivity|reflexivity|apply opt_ok_always].
+    [|intros a0 _; rewrite cstep_allow_bit_overlap; reflexivity|reflexivity|apply opt_ok_always].
   flat_c.
   rewrite foldM_app, (seg_m (m_command_step dfa) "allow_address_overlap" MBool
                          (fun x s => upd_command s NN NN NN NN x NN NN NN NN NN NN) always);
-    [|intros a0 _; reflexivity|reflexivity|apply opt_ok_always].
+    [|intros a0 _; rewrite cstep_allow_address_overlap; reflexivity|reflexivity|apply opt_ok_always].
   flat_c.
   rewrite foldM_app, (seg_m (m_command_step dfa) "size_bits_in" MInt
                          (fun x s => upd_command s NN NN NN NN NN NN x NN NN NN NN) in_u32);
-    [|intros a0 Ha0; unfold m_command_step; keys; rewrite (as_u32_ok _ Ha0); reflexivity
+    [|intros a0 Ha0; rewrite ?cstep_size_bits_in, ?cstep_size_bits_out, (as_u32_ok _ Ha0); reflexivity
      |reflexivity|assumption].
   flat_c.
   rewrite foldM_app, (seg_m (m_command_step dfa) "fields_in" (fields_to_m toml)
                          (fun x s => upd_command s NN NN NN NN NN NN NN NN NN
                                                  (option_map (map (spec_field_m dfa)) x) NN) fields_ok);
-    [|intros a0 Ha0; unfold m_command_step; keys;
-      rewrite (m_fields_ok toml dfa a0 (fields_ok_field_ok _ Ha0)); reflexivity
+    [|intros a0 Ha0; rewrite ?cstep_fields_in, ?cstep_fields_out,
+        (m_fields_ok toml dfa a0 (fields_ok_field_ok _ Ha0)); reflexivity
      |reflexivity|assumption].
   flat_c.
   rewrite foldM_app, (seg_m (m_command_step dfa) "size_bits_out" MInt
                          (fun x s => upd_command s NN NN NN NN NN NN NN x NN NN NN) in_u32);
-    [|intros a0 Ha0; unfold m_command_step; keys; rewrite (as_u32_ok _ Ha0); reflexivity
+    [|intros a0 Ha0; rewrite ?cstep_size_bits_in, ?cstep_size_bits_out, (as_u32_ok _ Ha0); reflexivity
      |reflexivity|assumption].
   flat_c.
   rewrite (seg_m (m_command_step dfa) "fields_out" (fields_to_m toml)
                  (fun x s => upd_command s NN NN NN NN NN NN NN NN NN NN
                                          (option_map (map (spec_field_m dfa)) x)) fields_ok);
-    [|intros a0 Ha0; unfold m_command_step; keys;
-      rewrite (m_fields_ok toml dfa a0 (fields_ok_field_ok _ Ha0)); reflexivity
+    [|intros a0 Ha0; rewrite ?cstep_fields_in, ?cstep_fields_out,
+        (m_fields_ok toml dfa a0 (fields_ok_field_ok _ Ha0)); reflexivity
      |reflexivity|assumption].
   unfold class_of. f_equal.
   destruct (h_cfg h), (ak_byte_order c), (ak_repeat c), (ak_fields_in c), (ak_fields_out c); reflexivity.
